@@ -7,6 +7,11 @@
 //	media    all Accept headers of <= N ranges over a range alphabet (type x params x
 //	         q-form) x separators x all ordered offer lists of <= 3 distinct offers
 //	tokens   the same for Accept-Charset / -Encoding / -Language over a token alphabet
+//	long     headers of 13..16 ranges (long.go): range i is the i-th of 16 fixed distinct
+//	         types / tokens in one class of a small key-class alphabet (q classes, exact vs
+//	         type wildcard, with / without a parameter), ALL class assignments x every single
+//	         offer and ordered pair of offers, offer i being acceptable to range i only -
+//	         the ordering of the statement over a whole long header, position tie-break included
 //	repeat   two identical calls inside one handler (getOffer writes into the header
 //	         buffer): the second answer is judged too
 //	format   Format over handler lists incl. "default", AutoFormat
@@ -133,6 +138,10 @@ type family struct {
 	rlists [][]int // what the reference sees (Format: without "default")
 	sub    [][]int // lists with one entry removed
 	repeat bool    // call twice inside the handler, judge the second answer
+
+	long    bool   // long-header family (long.go): offer i belongs to range i, own violation handling
+	oname   string // name used in outcome keys (default: name)
+	classes string // long-header family: the key-class alphabet, for signatures
 }
 
 func orderedLists(n, maxLen int) [][]int {
@@ -218,6 +227,8 @@ type worker struct {
 	bufRes, bufPan, bufAux []string
 	bad                    []bool
 	oneRes, onePan, oneAux []string
+
+	longSink map[string]*core.Violation // long-header families: violations of the current work item
 }
 
 func (w *worker) acc(c fiber.Ctx, i int) {
@@ -498,7 +509,7 @@ type stats struct {
 	f                                                          *family
 	tag                                                        string
 	headers, evals, nontrivial, exact, partial, unjudged, viol int64
-	nonminimal                                                 int64
+	nonminimal, attributed                                     int64
 	out                                                        [4][6][2]int64
 }
 
@@ -516,11 +527,18 @@ func (s *stats) flush(l *core.Local) {
 	l.Add("not_judged_totality_only", s.unjudged)
 	l.Add("violating_cases_total", s.viol)
 	l.Add("violating_cases_nonminimal_suppressed", s.nonminimal)
+	if s.attributed > 0 {
+		l.Add("violations_of_"+s.f.name+"_attributed_to_Accepts", s.attributed)
+	}
+	oname := s.f.name
+	if s.f.oname != "" {
+		oname = s.f.oname
+	}
 	for a := range s.out {
 		for b := range s.out[a] {
 			for c := range s.out[a][b] {
 				if n := s.out[a][b][c]; n > 0 {
-					l.P.Outcomes[fmt.Sprintf("%s result=%s decided-by=%s preference-order-differs-from-position=%v", s.f.name, resNames[a], byNames[b], c == 1)] += n
+					l.P.Outcomes[fmt.Sprintf("%s result=%s decided-by=%s preference-order-differs-from-position=%v", oname, resNames[a], byNames[b], c == 1)] += n
 				}
 			}
 		}
@@ -617,7 +635,11 @@ func (w *worker) judge(l *core.Local, f *family, hc hcase, st *stats) {
 		anyBad = anyBad || kind != ""
 	}
 	if anyBad {
-		w.handleBad(l, f, hc, st)
+		if f.long {
+			w.handleBadLong(f, hc, st, &v, res, pan, aux)
+		} else {
+			w.handleBad(l, f, hc, st)
+		}
 	}
 }
 
@@ -1534,6 +1556,10 @@ func main() {
 	bounds["format"] = fmt.Sprintf("Format: <=%d ranges over the 60-range alphabet x 3 separators x ordered handler lists of <=3 of %v; AutoFormat over the same headers; absent header for every function", fn, formatTypes)
 	phase("format")
 
+	// 2b. long headers (13 and more ranges, see long.go), cheapest product
+	longPhase(r, quick, 0, bounds)
+	phase("long-0")
+
 	// 3. totality
 	tl := 4
 	if !quick {
@@ -1583,6 +1609,10 @@ func main() {
 	}
 	phase("tokens")
 
+	// 6b. long headers, the other products of the tier
+	longPhase(r, quick, 1, bounds)
+	phase("long-1")
+
 	// 7. media ranges (the biggest products last)
 	a16 := product([]string{"*/*", "text/*", "text/html", "text/plain"}, []string{""}, []string{"", ";q=0.5", ";q=0"})
 	a16 = append(a16, elem{"text/html", ";level=1", ""}, elem{"text/html", ";level=1", ";q=0.5"}, elem{"text/html", "", "; q=0.5"}, elem{"text/html", "", ";Q=0.5"})
@@ -1607,6 +1637,8 @@ func main() {
 			"over a %d-range alphabet, joined by ',', x ordered lists of <=2 offers", len(a144), len(a4))
 	}
 	phase("media")
+	longPhase(r, quick, 2, bounds)
+	phase("long-2")
 
 	if crashed := <-poolDone; len(crashed) > 0 {
 		core.Fatal("C09 pool worker failed: %v", crashed)
@@ -1639,7 +1671,9 @@ func main() {
 				"range params must all occur in the offer (name case-insensitive, quotes stripped); first q (any case) is the weight, what follows is accept-ext and ignored. " +
 				"Case-only differences and token prefix relations are unspecified (both answers admitted, counted in unspecified_skipped); headers outside the grammar are " +
 				"checked for totality only (no panic, result in offers or empty). An evaluation is non-trivial when the header is present and the admissible answer is not " +
-				"simply 'the first offer' (or, for pool pairs, when the two headers differ).",
+				"simply 'the first offer' (or, for pool pairs, when the two headers differ). Long headers (13 and more ranges): every assignment of the classes of a small key-class " +
+				"alphabet to a fixed list of distinct types/tokens, offer i acceptable to range i only, x all single offers and ordered offer pairs; judged by the same reference " +
+				"(long_evaluations_decided_by_position_alone counts the pairs whose two ranges tie on quality, specificity and parameter count).",
 			"bounds": bounds,
 		},
 		Assumptions: []string{
